@@ -320,12 +320,12 @@ func runWriterHistory(cs *drv.Case, ops []wOp, o writerOpts) bool {
 					}
 				}
 				if flushedOnce && len(want) > 0 {
-					// a later Flush of the same bytes writer publishes exactly what was written since the previous one
-					// two readings of the statement are accepted: the target holds what was written since the
-					// previous Flush (each Flush is one delivery), or everything written so far after the initial contents
+					// a later Flush of the same bytes writer: the target holds the initial contents followed by
+					// everything written so far (nothing that was flushed before may disappear from it)
 					everything = append(everything, want...)
-					if !bytes.Equal(target, want) && !bytes.Equal(target, append(append([]byte(nil), initCopy...), everything...)) {
-						fail("bytes-writer-reflush", i, "after a later Flush the target holds %d bytes, want the %d bytes written since the previous Flush (first diff at %d)", len(target), len(want), firstDiff(target, want))
+					full := append(append([]byte(nil), initCopy...), everything...)
+					if !bytes.Equal(target, full) {
+						fail("bytes-writer-reflush", i, "after a later Flush the target holds %d bytes, want initial %d + everything written so far %d (first diff at %d)", len(target), len(initCopy), len(everything), firstDiff(target, full))
 						return true
 					}
 					cs.C.Obs("bytes-writer re-flushes judged", 1)
